@@ -8,7 +8,7 @@
    [etx_total] sums value+fee debited for the emitted ETXs; [burn] is value destroyed; [rent_credit] is
    (base fee x CallNewAccountGas) x number of rent refunds granted. *)
 From Coq Require Import List ZArith NArith Bool.
-From GQ Require Import Lib.C02_BMap Generated.C02Sites Model.C02 Proofs.C02_Exec Proofs.C02_Trans Proofs.C02_Out Proofs.C02.
+From GQ Require Import Lib.C02_BMap Generated.C02Sites Model.C02 Proofs.C02_Exec Proofs.C02_Trans Proofs.C02_Out Proofs.C02 Proofs.C02_Fees.
 Import ListNotations.
 Local Open Scope Z_scope.
 
@@ -339,3 +339,56 @@ Example inbound_etx_nonvacuous :
   exists s', apply_etx nv_env m (mkOpq true 0 0 false) top (init nv_pre) = (s', RDone 500000 true)
     /\ bal s' = [(1%N, 1000000); (2%N, 7); (3%N, 0); (4%N, 1); (0%N, 0)] /\ burn s' = 900.
 Proof. eexists. split; [vm_compute; reflexivity|]. split; reflexivity. Qed.
+
+(* ---------- extension round: ExecutionResult.QuaiFees (what the block later pays to the miner) ---------- *)
+
+(* 32. For every message, state and outcome (refused, inbound ETX, kQuai, transaction-level Suicide, executed
+   with any effect tree) the fees handed to the block are non-negative and covered by what the payer lost
+   to gas; on the executed path they are exactly that. *)
+Theorem fees_covered_by_charge : forall e m o top s s' r,
+  0 <= m_price m -> wf_opq m o -> wf_shape m ->
+  transition e m o top s = (s', r) ->
+  0 <= fees_of m r <= charge m r
+  /\ (m_kind m = KNormal -> fees_of m r = charge m r).
+Proof. exact fees_covered. Qed.
+Print Assumptions fees_covered_by_charge.
+
+(* 33. Over a block of any length (induction over the transaction list): the fees of all its results are
+   covered by the gas charges accumulated along the same run. *)
+Theorem block_fees_covered_by_charges : forall l b acc b' acc',
+  Forall wf_txn_shape l -> nonneg b -> run_block l b acc = (b', acc') ->
+  0 <= block_fees l b <= tot_charge acc' - tot_charge acc.
+Proof. exact block_fees_covered. Qed.
+Print Assumptions block_fees_covered_by_charges.
+
+(* 34. Hence paying every QuaiFees of the block out to the miners still creates nothing: balances at the
+   end plus all fees <= balances at the start - ETX debits - burn + rent refunds + inbound values. *)
+Theorem block_with_fees_paid_out_never_creates_value : forall l b b' acc',
+  Forall wf_txn_shape l -> nonneg b -> run_block l b tot0 = (b', acc') ->
+  bsum b' + block_fees l b <= bsum b - tot_etx acc' - tot_burn acc' + tot_rent acc' + tot_inbound acc'
+  /\ 0 <= block_fees l b /\ 0 <= tot_etx acc' /\ 0 <= tot_burn acc'.
+Proof. exact block_with_fees_paid_never_creates. Qed.
+Print Assumptions block_with_fees_paid_out_never_creates_value.
+
+(* 35. The hypotheses of 33/34 are the booleans evaluated on every observed block (blk_ok). *)
+Theorem observed_block_fees_covered_by_charges : forall c b' acc',
+  blk_hyps_ok c = true -> blk_shape_ok c = true -> run_block (c_blk c) (c_blkpre c) tot0 = (b', acc') ->
+  0 <= block_fees (c_blk c) (c_blkpre c) <= tot_charge acc'
+  /\ bsum b' + block_fees (c_blk c) (c_blkpre c)
+     <= bsum (c_blkpre c) - tot_etx acc' - tot_burn acc' + tot_rent acc' + tot_inbound acc'.
+Proof. exact observed_block_fees_covered. Qed.
+Print Assumptions observed_block_fees_covered_by_charges.
+
+(* an executed transaction (80000 gas used at price 3) followed by a transaction-level Suicide (charged the
+   whole gas limit 100000 x 3, fees only for the 21000 intrinsic gas): fees 303000 <= charges 540000 *)
+Example fees_nonvacuous :
+  let e := mkEnv 2 25000 false 6000000 30000000 0%N in
+  let t1 := mkTxn false e (mkMsg 1%N 7 100000 3 false KNormal false 0 0 0 0) (mkOpq true 20000 0 false)
+              (ACall 1%N 3%N 7 2%N true [] false) in
+  let t2 := mkTxn false e (mkMsg 2%N 0 100000 3 false (KSuicide (Some 3%N)) false 27 0 0 0) (mkOpq true 0 0 false) AOther in
+  let pre := [(1%N, 1000000); (2%N, 900000); (3%N, 0)] in
+  exists b' acc', run_block [t1; t2] pre tot0 = (b', acc')
+    /\ block_fees [t1; t2] pre = 80000 * 3 + (C02Sites.tx_gas + 27 * C02Sites.tx_data_non_zero_gas) * 3
+    /\ tot_charge acc' = 80000 * 3 + 100000 * 3
+    /\ block_fees [t1; t2] pre < tot_charge acc'.
+Proof. eexists. eexists. split; [vm_compute; reflexivity|]. repeat split; vm_compute; reflexivity. Qed.
